@@ -1,7 +1,7 @@
 (* C19 — property theorems only. Each is closed by [exact]/[apply] of lemmas of Proofs*.v, or, for the
    refutations and examples, by evaluation of the executable model on a concrete witness. *)
 From Coq Require Import List ZArith Bool.
-From Gst Require Import C19.Model C19.Calcs C19.Spec C19.Proofs C19.ProofsSuccess C19.ProofsInst C19.Witness.
+From Gst Require Import C19.Model C19.Calcs C19.Spec C19.Proofs C19.ProofsSuccess C19.ProofsLoc C19.ProofsInst C19.Witness.
 Import ListNotations.
 Local Open Scope Z_scope.
 
@@ -33,15 +33,39 @@ Proof. exact invb_sound. Qed.
 Print Assumptions C19_inv_test_sound.
 
 (* --------------------------------------------------------------------------------------------- instances *)
-(* CalcKriging (kriging, xvalid on two Dbs, test_neigh, ...): all options except DGM; all targets
-   (or single target with the roll-back of fixes/C19_1.patch); no external-drift expansion needed *)
+(* CalcKriging (kriging, krigtest, xvalid on two Dbs, test_neigh, ...): every option except DGM, all targets or a
+   single target (whose outputs are temporary variables: _rollback cleans both lists since fix C19_1);
+   no external-drift expansion needed *)
 Theorem C19_CalcKriging_atomic : forall (c : cfg) (gout : bool) din dout fs fk s',
-  Inv din -> Inv dout -> g_dgm c = false -> (g_single c < 0 \/ g_fixed c = true) ->
+  Inv din -> Inv dout -> g_dgm c = false ->
   expand_noop L_F din dout = true -> expand_noop L_NOSTAT din dout = true -> fs <> 4 ->
   calc_run (kriging c gout) (init_st din dout false) fs fk = (false, s') ->
   db_eq (s_in s') din /\ db_eq (s_out s') dout.
-Proof. intros c gout din dout fs fk s' Hi Ho Hd Hs HF HN. apply atomic_generic; try assumption. apply wf_kriging; assumption. Qed.
+Proof. intros c gout din dout fs fk s' Hi Ho Hd HF HN. apply atomic_generic; try assumption. apply wf_kriging; assumption. Qed.
 Print Assumptions C19_CalcKriging_atomic.
+
+(* kriging on a dbin without any variable is refused by _check, whatever else (fix C19_5) *)
+Theorem C19_CalcKriging_no_variable_fails_in_check : forall (c : cfg) (gout : bool) din dout fs fk,
+  g_neigh_only c = false -> locnum din L_Z = 0 ->
+  failing_stage (kriging c gout) (init_st din dout false) fs fk = 1 /\
+  calc_run (kriging c gout) (init_st din dout false) fs fk =
+    (false, exec_quiet (g_nc c) (rollback_std (g_dgm c)) (init_st din dout false)).
+Proof. exact kriging_no_variable. Qed.
+Print Assumptions C19_CalcKriging_no_variable_fails_in_check.
+
+(* CalcAnamTransform (rawToGaussian, rawToFactor): its variables are registered since fix C19_2 *)
+Theorem C19_CalcAnamTransform_atomic : forall (c : cfg) din dout fs fk s',
+  Inv din -> Inv dout -> fs <> 4 ->
+  calc_run (anam c) (init_st din dout false) fs fk = (false, s') -> db_eq (s_in s') din /\ db_eq (s_out s') dout.
+Proof. intros c din dout fs fk s' Hi Ho. apply atomic_generic; try assumption. apply wf_anam. Qed.
+Print Assumptions C19_CalcAnamTransform_atomic.
+
+(* including dbg2gShrink and its auxiliary temporary variable (fix C19_4) *)
+Theorem C19_CalcGridToGrid_atomic : forall (c : cfg) din dout fs fk s',
+  Inv din -> Inv dout -> fs <> 4 ->
+  calc_run (g2g c) (init_st din dout false) fs fk = (false, s') -> db_eq (s_in s') din /\ db_eq (s_out s') dout.
+Proof. intros c din dout fs fk s' Hi Ho. apply atomic_generic; try assumption. apply wf_g2g. Qed.
+Print Assumptions C19_CalcGridToGrid_atomic.
 
 Theorem C19_CalcMigrate_atomic : forall (c : cfg) din dout fs fk s',
   Inv din -> Inv dout -> fs <> 4 ->
@@ -61,12 +85,6 @@ Theorem C19_CalcSimpleInterpolation_atomic : forall (c : cfg) din dout fs fk s',
 Proof. intros c din dout fs fk s' Hi Ho HF HN. apply atomic_generic; try assumption. apply wf_simpleint; assumption. Qed.
 Print Assumptions C19_CalcSimpleInterpolation_atomic.
 
-Theorem C19_CalcGridToGrid_atomic : forall (c : cfg) din dout fs fk s',
-  Inv din -> Inv dout -> (g_mode c <> 1 \/ g_fixed c = true) -> fs <> 4 ->
-  calc_run (g2g c) (init_st din dout false) fs fk = (false, s') -> db_eq (s_in s') din /\ db_eq (s_out s') dout.
-Proof. intros c din dout fs fk s' Hi Ho Hm. apply atomic_generic; try assumption. apply wf_g2g; assumption. Qed.
-Print Assumptions C19_CalcGridToGrid_atomic.
-
 Theorem C19_CalcImage_atomic : forall (c : cfg) opkey din dout fs fk s',
   Inv din -> Inv dout -> expand_noop L_F din dout = true -> expand_noop L_NOSTAT din dout = true -> fs <> 4 ->
   calc_run (image c opkey) (init_st din dout false) fs fk = (false, s') -> db_eq (s_in s') din /\ db_eq (s_out s') dout.
@@ -78,6 +96,26 @@ Theorem C19_CalcGlobal_atomic : forall (c : cfg) gout din dout fs fk s',
   calc_run (global c gout) (init_st din dout false) fs fk = (false, s') -> db_eq (s_in s') din /\ db_eq (s_out s') dout.
 Proof. intros c gout din dout fs fk s' Hi Ho HF HN. apply atomic_generic; try assumption. apply wf_global; assumption. Qed.
 Print Assumptions C19_CalcGlobal_atomic.
+
+(* Simulations create their variables WITH the SIMU locator (temporary ones in dbin for conditional turning bands,
+   cleaned by _rollback since fix C19_3).  Atomic -- and the Dbs well-formed again -- provided no variable carried
+   the SIMU locator before the call (otherwise: known findings *:existing-simu-locator-lost below).  Not DGM. *)
+Theorem C19_CalcSimuTurningBands_atomic : forall (c : cfg) gout din dout fs fk s',
+  Inv din -> Inv dout -> g_dgm c = false ->
+  getloc (d_locs din) L_SIMU = [] -> getloc (d_locs dout) L_SIMU = [] ->
+  expand_noop L_F din dout = true -> expand_noop L_NOSTAT din dout = true -> fs <> 4 ->
+  calc_run (simtub c gout) (init_st din dout false) fs fk = (false, s') ->
+  (db_eq (s_in s') din /\ Inv (s_in s')) /\ (db_eq (s_out s') dout /\ Inv (s_out s')).
+Proof. exact simtub_atomic. Qed.
+Print Assumptions C19_CalcSimuTurningBands_atomic.
+
+Theorem C19_CalcSimuFFT_atomic : forall (c : cfg) gout din dout fs fk s',
+  Inv din -> Inv dout -> getloc (d_locs din) L_SIMU = [] -> getloc (d_locs dout) L_SIMU = [] ->
+  expand_noop L_F din dout = true -> expand_noop L_NOSTAT din dout = true -> fs <> 4 ->
+  calc_run (simfft c gout) (init_st din dout false) fs fk = (false, s') ->
+  (db_eq (s_in s') din /\ Inv (s_in s')) /\ (db_eq (s_out s') dout /\ Inv (s_out s')).
+Proof. exact simfft_atomic. Qed.
+Print Assumptions C19_CalcSimuFFT_atomic.
 
 (* ---------------------------------------------------------------------------------------------
    Generic success.  For ANY calculator description satisfying [wf_success] (registered additions without locator,
@@ -124,74 +162,17 @@ Theorem C19_CalcGridToGrid_success : forall (c : cfg) din dout fk s',
 Proof. intros c din dout fk s' Hi Ho. apply (success_generic (g2g c)); try assumption. apply wf_success_g2g. Qed.
 Print Assumptions C19_CalcGridToGrid_success.
 
-(* --------------------------------------------------------------------------------------------- refutations
-   The faithful model falsifies atomicity for these option combinations; each witness is replayed on
-   the real library by checks/C19.py. *)
-Ltac refute_out := intros [H _]; vm_compute in H; discriminate.
 
-(* krigtest: the outputs are registered as temporary, CalcKriging::_rollback cleans the permanent list only *)
-Theorem C19_CalcKriging_single_target_refuted : exists din dout fs fk s',
-  Inv din /\ Inv dout /\ calc_run (kriging cfg_krigtest true) (init_st din dout false) fs fk = (false, s') /\
-  ~ db_eq (s_out s') dout.
-Proof.
-  exists w_din, w_dout, 3, 0%nat. eexists.
-  split; [apply invb_sound; vm_compute; reflexivity|]. split; [apply invb_sound; vm_compute; reflexivity|].
-  split; [vm_compute; reflexivity | refute_out].
-Qed.
-Print Assumptions C19_CalcKriging_single_target_refuted.
+Theorem C19_CalcAnamTransform_success : forall (c : cfg) din dout fk s',
+  Inv din -> Inv dout ->
+  calc_run (anam c) (init_st din dout false) 0 fk = (true, s') -> success_spec (g_nc c) din dout s'.
+Proof. intros c din dout fk s' Hi Ho. apply (success_generic (anam c)); try assumption. apply wf_success_anam. Qed.
+Print Assumptions C19_CalcAnamTransform_success.
 
-(* ... and after a SUCCESSFUL krigtest the Z locator of dbout designates a deleted column *)
-Theorem C19_CalcKriging_single_target_success_refuted : exists din dout s' u,
-  Inv din /\ Inv dout /\ calc_run (kriging cfg_krigtest true) (init_st din dout false) 0 0%nat = (true, s') /\
-  In u (getloc (d_locs (s_out s')) L_Z) /\ has_col (s_out s') u = false /\ getloc (d_locs dout) L_Z = [4].
-Proof.
-  exists w_din, w_dout. eexists. exists 5.
-  split; [apply invb_sound; vm_compute; reflexivity|]. split; [apply invb_sound; vm_compute; reflexivity|].
-  split; [vm_compute; reflexivity|]. split; [vm_compute; left; reflexivity|]. split; vm_compute; reflexivity.
-Qed.
-Print Assumptions C19_CalcKriging_single_target_success_refuted.
-
-(* DGM: _preprocess moves the X locators of dbin to temporary centred copies; only _postprocess restores them *)
-Theorem C19_CalcKriging_dgm_refuted : exists din dout fs fk s',
-  Inv din /\ Inv dout /\ calc_run (kriging cfg_dgm true) (init_st din dout false) fs fk = (false, s') /\
-  ~ db_eq (s_in s') din /\ getloc (d_locs (s_in s')) L_X <> getloc (d_locs din) L_X.
-Proof.
-  exists w_din, w_dout, 3, 0%nat. eexists.
-  split; [apply invb_sound; vm_compute; reflexivity|]. split; [apply invb_sound; vm_compute; reflexivity|].
-  split; [vm_compute; reflexivity|]. split; [refute_out | vm_compute; discriminate].
-Qed.
-Print Assumptions C19_CalcKriging_dgm_refuted.
-
-(* CalcAnamTransform::_preprocess adds its variables with Db::addColumnsByConstant: never registered *)
-Theorem C19_CalcAnamTransform_refuted : exists din fs fk s',
-  Inv din /\ calc_run (anam cfg_anam []) (init_st din din true) fs fk = (false, s') /\ ~ db_eq (s_in s') din.
-Proof.
-  exists w_din, 3, 0%nat. eexists.
-  split; [apply invb_sound; vm_compute; reflexivity|].
-  split; [vm_compute; reflexivity | refute_out].
-Qed.
-Print Assumptions C19_CalcAnamTransform_refuted.
-
-(* conditional turning bands: the simulations at the data points are temporary variables of dbin *)
-Theorem C19_CalcSimuTurningBands_refuted : exists din dout fs fk s',
-  Inv din /\ Inv dout /\ calc_run (simtub cfg_simtub true) (init_st din dout false) fs fk = (false, s') /\
-  ~ db_eq (s_in s') din.
-Proof.
-  exists w_din, w_dout, 3, 0%nat. eexists.
-  split; [apply invb_sound; vm_compute; reflexivity|]. split; [apply invb_sound; vm_compute; reflexivity|].
-  split; [vm_compute; reflexivity | refute_out].
-Qed.
-Print Assumptions C19_CalcSimuTurningBands_refuted.
-
-(* dbg2gShrink: auxiliary temporary variable in dbout *)
-Theorem C19_CalcGridToGrid_shrink_refuted : exists din dout fs fk s',
-  Inv din /\ Inv dout /\ calc_run (g2g cfg_shrink) (init_st din dout false) fs fk = (false, s') /\ ~ db_eq (s_out s') dout.
-Proof.
-  exists w_dout, w_dout, 3, 0%nat. eexists.
-  split; [apply invb_sound; vm_compute; reflexivity|]. split; [apply invb_sound; vm_compute; reflexivity|].
-  split; [vm_compute; reflexivity | refute_out].
-Qed.
-Print Assumptions C19_CalcGridToGrid_shrink_refuted.
+(* --------------------------------------------------------------------------------------------- known findings
+   The faithful model still falsifies the property for these option combinations (KNOWN_FINDINGS.txt); each
+   witness is replayed on the real library by checks/C19.py. *)
+Ltac refute_in := intros [H _]; vm_compute in H; discriminate.
 
 (* external drift known on the output grid only: ACalcInterpolator::_preprocess migrates it into dbin
    (nested CalcMigrate, never registered, never removed): dbin is changed after a SUCCESS as well as after a failure *)
@@ -202,33 +183,63 @@ Theorem C19_CalcKriging_external_drift_refuted : exists din dout s1 s2,
 Proof.
   exists w_din, w_dout_f. eexists. eexists.
   split; [apply invb_sound; vm_compute; reflexivity|]. split; [apply invb_sound; vm_compute; reflexivity|].
-  split; [vm_compute; reflexivity|]. split; [refute_out|]. split; [vm_compute; reflexivity | refute_out].
+  split; [vm_compute; reflexivity|]. split; [refute_in|]. split; [vm_compute; reflexivity | refute_in].
 Qed.
 Print Assumptions C19_CalcKriging_external_drift_refuted.
 
-(* a failure arriving after _postprocess (only reachable by injection or by an exception): the naming
-   convention has already cleared the Z locators of dbout *)
-Theorem C19_failure_after_postprocess_refuted : exists din dout fk s',
-  Inv din /\ Inv dout /\ wf_atomic (kriging cfg_kriging true) din dout = true /\
-  calc_run (kriging cfg_kriging true) (init_st din dout false) 4 fk = (false, s') /\
-  d_cols (s_out s') = d_cols dout /\ getloc (d_locs (s_out s')) L_Z <> getloc (d_locs dout) L_Z.
+(* simulations on Dbs that already hold variables with the SIMU locator: _addVariableDb(.., ELoc::SIMU, 0, ..)
+   overwrites those locators and nothing gives them back (turning bands: dbout; FFT: the grid) *)
+Theorem C19_CalcSimuTurningBands_existing_simu_refuted : exists din dout fs fk s',
+  Inv din /\ Inv dout /\ calc_run (simtub cfg_simtub true) (init_st din dout false) fs fk = (false, s') /\
+  d_cols (s_out s') = d_cols dout /\ getloc (d_locs (s_out s')) L_SIMU <> getloc (d_locs dout) L_SIMU.
 Proof.
-  exists w_din, w_dout, 100%nat. eexists.
+  exists w_din, w_dout_simu, 3, 0%nat. eexists.
   split; [apply invb_sound; vm_compute; reflexivity|]. split; [apply invb_sound; vm_compute; reflexivity|].
-  split; [vm_compute; reflexivity|]. split; [vm_compute; reflexivity|]. split; [vm_compute; reflexivity | vm_compute; discriminate].
+  split; [vm_compute; reflexivity|]. split; [vm_compute; reflexivity | vm_compute; discriminate].
 Qed.
-Print Assumptions C19_failure_after_postprocess_refuted.
+Print Assumptions C19_CalcSimuTurningBands_existing_simu_refuted.
 
-(* --------------------------------------------------------------------------------------------- candidate fixes
-   With the roll-back of fixes/C19_1.patch (clean both lists, restore the coordinate locators) the witnesses above are restored *)
-Example C19_fixed_rollback_on_witnesses :
-  (let '(ok, s) := calc_run (kriging (with_fixed cfg_krigtest) true) (init_st w_din w_dout false) 3 0%nat in
-   (ok, db_eqb (s_in s) w_din, db_eqb (s_out s) w_dout)) = (false, true, true) /\
-  (let '(ok, s) := calc_run (kriging (with_fixed cfg_dgm) true) (init_st w_din w_dout false) 3 0%nat in
-   (ok, db_eqb (s_in s) w_din, db_eqb (s_out s) w_dout)) = (false, true, true) /\
-  (let '(ok, s) := calc_run (simtub (with_fixed cfg_simtub) true) (init_st w_din w_dout false) 3 0%nat in
-   (ok, db_eqb (s_in s) w_din, db_eqb (s_out s) w_dout)) = (false, true, true).
+Theorem C19_CalcSimuFFT_existing_simu_refuted : exists din dout fs fk s',
+  Inv din /\ Inv dout /\ calc_run (simfft cfg_simfft true) (init_st din dout false) fs fk = (false, s') /\
+  d_cols (s_out s') = d_cols dout /\ getloc (d_locs (s_out s')) L_SIMU <> getloc (d_locs dout) L_SIMU.
+Proof.
+  exists w_din, w_dout_simu, 3, 0%nat. eexists.
+  split; [apply invb_sound; vm_compute; reflexivity|]. split; [apply invb_sound; vm_compute; reflexivity|].
+  split; [vm_compute; reflexivity|]. split; [vm_compute; reflexivity | vm_compute; discriminate].
+Qed.
+Print Assumptions C19_CalcSimuFFT_existing_simu_refuted.
+
+(* Remark (not a finding: nothing can fail once the last stage has returned true): if a failure is forced AFTER a
+   completed _postprocess, the locators cleared by NamingConvention::setLocators are not given back *)
+Example C19_remark_failure_after_postprocess :
+  (let '(ok, s) := calc_run (kriging cfg_kriging true) (init_st w_din w_dout false) 4 100%nat in
+   (ok, list_eqb col_eqb (d_cols (s_out s)) (d_cols w_dout), getloc (d_locs (s_out s)) L_Z, getloc (d_locs w_dout) L_Z))
+  = (false, true, [], [4]).
+Proof. vm_compute. reflexivity. Qed.
+
+(* --------------------------------------------------------------------------------------------- regression examples
+   The DGM option (coordinate locators moved to centred temporary copies by _preprocess, given back by _postprocess
+   and, since fixes C19_1/C19_3, by _rollback) has NO general theorem here; together with the former witnesses of the defects cured by fixes C19_1..5:
+   on the witnesses, a failure at every point of check / preprocess (after each operation) / run is reported and
+   leaves both Dbs equal to the initial ones. *)
+Example C19_atomic_on_former_witnesses :
+  sweep_atomic (kriging cfg_dgm true) w_din w_dout = true /\
+  sweep_atomic (kriging cfg_krigtest_dgm true) w_din w_dout = true /\
+  sweep_atomic (simtub cfg_simtub true) w_din w_dout = true /\
+  sweep_atomic (simtub cfg_simtub_dgm true) w_din w_dout = true /\
+  sweep_atomic (kriging cfg_krigtest true) w_din w_dout = true /\
+  sweep_atomic (anam cfg_anam) w_din w_dout = true /\
+  sweep_atomic (g2g cfg_shrink) w_dout w_dout = true.
 Proof. vm_compute. repeat split; reflexivity. Qed.
+
+(* a completed krigtest leaves dbout exactly as it was (no output variable, no dangling locator);
+   kriging without variable: fails at stage 1 *)
+Example C19_krigtest_success_and_no_variable_on_witnesses :
+  (let '(ok, s) := calc_run (kriging cfg_krigtest true) (init_st w_din w_dout false) 0 0%nat in
+   (ok, db_eqb (s_in s) w_din, db_eqb (s_out s) w_dout)) = (true, true, true) /\
+  kriging_no_z_outcome = (1, false).
+Proof. vm_compute. split; reflexivity. Qed.
+
 
 (* --------------------------------------------------------------------------------------------- non-vacuity *)
 (* hypotheses of C19_CalcKriging_atomic hold on a non-trivial state (uid hole, pre-existing Z variable in dbout),
